@@ -24,6 +24,7 @@ import (
 func init() {
 	props["C04"] = runC04
 	props["tzprobe"] = runTZProbe
+	props["orderprobe"] = runOrderProbe
 }
 
 var tzPrograms = []string{
@@ -70,8 +71,53 @@ func runTZProbe(c *Ctx) {
 	c.Emit("noop", "x", false)
 }
 
+// orderJobs: (expression, resource) pairs over resources of many types that share element names
+// (contact, link, entry, participant ... are nested components of several resource types).
+func orderJobs() (srcs []string, inputs [][]fhir.Resource) {
+	r := &RNG{s: 424242}
+	g := &ResGen{r: r, maxDepth: 2, density: 70}
+	types := []string{"Patient", "Organization", "Person", "Bundle", "Practitioner", "RelatedPerson", "Encounter", "Appointment", "CareTeam", "Group", "Location", "HealthcareService", "Endpoint", "Observation", "DiagnosticReport", "Composition", "List", "Questionnaire", "QuestionnaireResponse", "ValueSet", "ConceptMap", "CodeSystem", "StructureDefinition", "Claim", "ExplanationOfBenefit", "Contract", "Medication", "MedicationKnowledge", "PlanDefinition", "ActivityDefinition"}
+	dummy := &Ctx{rng: r, meta: Meta{Dist: map[string]int{}, LawFailCount: map[string]int{}}, seen: map[uint64]struct{}{}}
+	for _, tn := range types {
+		for k := 0; k < 2; k++ {
+			res, _ := g.GenValid(tn, dummy)
+			if res == nil {
+				continue
+			}
+			for _, e := range []string{"descendants().count()", "children().count()", "children().children().count()", "descendants().where($this is BackboneElement).children().count()"} {
+				srcs = append(srcs, tn+"."+e)
+				inputs = append(inputs, []fhir.Resource{res})
+			}
+		}
+	}
+	return
+}
+
+// runOrderProbe evaluates the jobs in the order named by the seed argument (0 forward, 1 backward,
+// n>1 a permutation) in this fresh process and prints one line per job.
+func runOrderProbe(c *Ctx) {
+	srcs, inputs := orderJobs()
+	order := make([]int, len(srcs))
+	for i := range order {
+		order[i] = i
+	}
+	switch {
+	case c.seed == 1:
+		for i, j := 0, len(order)-1; i < j; i, j = i+1, j-1 {
+			order[i], order[j] = order[j], order[i]
+		}
+	case c.seed > 1:
+		order = (&RNG{s: c.seed * 7919}).Perm(len(order))
+	}
+	for _, j := range order {
+		o := compileEval(srcs[j], inputs[j])
+		fmt.Printf("ORDERPROBE\t%d\t%s\t%s\n", j, srcs[j], canonOutcome(o, nil))
+	}
+	c.Emit("noop", "x", false)
+}
+
 func runC04(c *Ctx) {
-	c.meta.Rule = "(1) random Compile histories (1..5 calls, 0..3 options each over AddFunction fresh/duplicate/built-in/bad-signature, WithExperimentalFuncs, Permissive) with function visibility probed after each call; (2) goroutines x shared expressions x shared resources under random start order, GOMAXPROCS 1..16, compared with sequential evaluation; (3) now()/today()/timeOfDay() agree within one evaluation and with OverrideTime; (4) the same programs re-executed under TZ in {UTC, Asia/Kolkata, America/St_Johns, Pacific/Chatham}; non-trivial = history with at least one option / concurrent evaluation; distinct by line"
+	c.meta.Rule = "(1) random Compile histories (1..5 calls, 0..3 options each over AddFunction fresh/duplicate/built-in/bad-signature, WithExperimentalFuncs, Permissive) with function visibility probed after each call; (2) goroutines x shared expressions x shared resources under random start order, GOMAXPROCS 1..16, compared with sequential evaluation; (3) now()/today()/timeOfDay() agree within one evaluation and with OverrideTime; (4) the same programs re-executed under TZ in {UTC, Asia/Kolkata, America/St_Johns, Pacific/Chatham}; (5) 240 (expression, resource) jobs over 30 resource types that share nested element names, evaluated in four different orders in fresh processes; non-trivial = history with at least one option / concurrent evaluation; distinct by line"
 	// ---- (1) Compile histories
 	good := func(in system.Collection) (system.Collection, error) { return in, nil }
 	bad := func(x int) int { return x }
@@ -253,6 +299,31 @@ func runC04(c *Ctx) {
 		wantS := t.Format("2006-01-02T15:04:05.000Z07:00") + "|" + t.Format("2006-01-02") + "|" + t.Format("15:04:05.000")
 		okk := err == nil && len(r) == 1 && r[0] == system.String(wantS)
 		c.Law(okk, "C04/override-time", "now/today/timeOfDay are the OverrideTime value", t.String(), fmt.Sprint(r, err)+" want "+wantS)
+	}
+	// ---- (5) order of evaluations: the same jobs in fresh processes, in different orders
+	var oref map[string]string
+	for _, ord := range []string{"0", "1", "2", "3"} {
+		cmd := exec.Command(os.Args[0], "orderprobe", "quick", ord, os.Args[4]+"/order")
+		out, err := cmd.Output()
+		if err != nil {
+			c.meta.Notes = append(c.meta.Notes, "orderprobe "+ord+" failed: "+err.Error())
+			continue
+		}
+		got := map[string]string{}
+		for _, line := range strings.Split(string(out), "\n") {
+			f := strings.Split(line, "\t")
+			if len(f) == 4 && f[0] == "ORDERPROBE" {
+				got[f[1]+" "+f[2]] = f[3]
+			}
+		}
+		if oref == nil {
+			oref = got
+			continue
+		}
+		for job, v := range got {
+			c.Observe("order "+ord+" "+job, true)
+			c.Law(v == oref[job], "C04/order-dependence", "the result of an evaluation does not depend on which evaluations the process ran before", "job "+job+" in evaluation order "+ord, v+" vs (forward order) "+oref[job])
+		}
 	}
 	// ---- (4) process time zone: re-execute under each zone and compare
 	var ref map[string]string
